@@ -306,6 +306,7 @@ func (r *seqRun) verify(hit *dns.Msg, qid uint16, pr *pristine, rule ttlRule, wa
 	rep.Eval(1)
 	rep.Count("hits_verified", 1)
 	rep.Count("hits_"+hitKind, 1)
+	statOf(r.c.Type).hits.Add(1)
 	target := r.dirtyTarget()
 	mm := checkServed(hit, qid, pr, rule, wantCompress)
 	if mm != nil {
@@ -348,10 +349,56 @@ func (r *seqRun) unexpectedMiss(what string, since time.Time, lifetime time.Dura
 		rep.Count("entries_expired_before_hit", 1)
 		return
 	}
+	// Judged when the run is over (judgeMisses): a tree may decide not to cache a
+	// record type at all; a miss is a lost observation only if answers of that
+	// type are served from the cache elsewhere in the run.
 	rep.Count("unexpected_misses", 1)
-	if badMisses.Add(1) <= 3 {
-		rep.Inconclusive("%s: expected a cache hit for %s but the terminal saw no response (history: %s)", what, r.name, strings.Join(r.log, " | "))
+	st := statOf(r.c.Type)
+	st.mu.Lock()
+	st.nmiss++
+	if len(st.misses) < 2 {
+		st.misses = append(st.misses, fmt.Sprintf("%s: expected a cache hit for %s but the terminal saw no response (history: %s)", what, r.name, strings.Join(r.log, " | ")))
 	}
+	st.mu.Unlock()
+}
+
+type typeStat struct {
+	hits   atomic.Int64
+	mu     sync.Mutex
+	nmiss  int64
+	misses []string
+}
+
+var typeStats sync.Map // record type of the question -> *typeStat
+
+func statOf(t string) *typeStat {
+	if v, ok := typeStats.Load(t); ok {
+		return v.(*typeStat)
+	}
+	v, _ := typeStats.LoadOrStore(t, &typeStat{})
+	return v.(*typeStat)
+}
+
+func judgeMisses() {
+	typeStats.Range(func(k, v any) bool {
+		st := v.(*typeStat)
+		st.mu.Lock()
+		defer st.mu.Unlock()
+		if st.nmiss == 0 {
+			return true
+		}
+		if st.hits.Load() == 0 {
+			rep.Count("misses_on_question_types_this_tree_never_serves_from_cache", st.nmiss)
+			rep.SetAdd("question_types_never_served_from_cache", k.(string))
+			return true
+		}
+		for _, m := range st.misses {
+			if badMisses.Add(1) <= 3 {
+				rep.Inconclusive("%s", m)
+			}
+		}
+		return true
+	})
 }
 
 func lifetimeOf(m *dns.Msg, minTTL uint32) time.Duration {
@@ -956,6 +1003,7 @@ func main() {
 	rep.Count("served_messages_containing_opt_ignored_by_oracle", servedOPTs.Load())
 	rep.Count("poolsan_gets", poolsan.Gets.Load())
 	rep.Count("poolsan_releases", poolsan.Releases.Load())
+	judgeMisses()
 	if rep.Get("hits_verified") == 0 || rep.Get("mutations_effective") == 0 {
 		rep.Inconclusive("monitor observed no verified hits / no effective mutations")
 	}
